@@ -609,7 +609,7 @@ def parse_result(line):
     """R pi si OK more=true n=2 | id,fidx,sidx,ft,lt,cb,sb,cp,sp,ch,sh,proto ..."""
     tok = line.split()
     res = {"status": tok[3] if len(tok) > 3 else "MISSING", "raw": line}
-    if res["status"] != "OK":
+    if res["status"] not in ("OK", "EXCLUDED"):
         return res
     res["more"] = tok[4] == "more=true"
     streams = []
@@ -623,6 +623,8 @@ def parse_result(line):
 
 def judge(pop, sr, sp, res):
     """Property verdict on an implementation (or model) observation. Returns None or (kind, reason)."""
+    if res["status"] == "EXCLUDED":
+        return None
     if res["status"] != "OK":
         return "status", res["raw"][:300]
     vis = visible_of(pop)
@@ -996,6 +998,11 @@ def main(tier, seed, replay=None):
                 stats["searches"] += 1
                 sp = spec(pop, pop["_truth"], sr)
                 res = impl.get((pi, si), {"status": "MISSING", "raw": "no output line for this search " + note[-300:]})
+                if res["status"] == "EXCLUDED":
+                    # after normalisation a sub-query is not connected to the main query by any relation: the engine
+                    # ignores it (documented excluded form); nothing is judged
+                    stats["excluded_unconnected_subquery"] = stats.get("excluded_unconnected_subquery", 0) + 1
+                    continue
                 why = judge(pop, sr, sp, res)
                 last = (sr, res)
                 dist["limit"][sr["limit"]] = dist["limit"].get(sr["limit"], 0) + 1
